@@ -137,7 +137,7 @@ impl Divan {
         // When run under `cargo-nextest`, it provides `--list --format terse`.
         // We don't currently accept this action under any other circumstances.
         if action.is_list_terse() {
-            self.run_tree_list(&tree, "");
+            self.run_tree_list(&tree, "", None);
             return;
         }
 
@@ -191,17 +191,40 @@ impl Divan {
     /// Emits the entries in `tree` for the purpose of `--list --format terse`.
     ///
     /// This only happens when running under `cargo-nextest` (`NEXTEST=1`).
-    fn run_tree_list(&self, tree: &[EntryTree], parent_path: &str) {
+    fn run_tree_list(
+        &self,
+        tree: &[EntryTree],
+        parent_path: &str,
+        parent_options: Option<&BenchOptions>,
+    ) {
         let mut full_path = String::with_capacity(parent_path.len());
 
         for child in tree {
-            let ignore = child
-                .bench_options()
-                .and_then(|options| options.ignore)
-                .unwrap_or_default();
+            // Resolve `ignore` exactly like `run_tree`/`run_bench_entry` do:
+            // inherited from enclosing groups, overridable by the child, and
+            // decided per benchmark rather than per tree node.
+            let child_options = child.bench_options();
+            let options: BenchOptions;
+            let options: Option<&BenchOptions> =
+                match (parent_options, child_options) {
+                    (None, None) => None,
+                    (Some(options), None) | (None, Some(options)) => {
+                        Some(options)
+                    }
+                    (Some(parent_options), Some(child_options)) => {
+                        options = child_options.overwrite(parent_options);
+                        Some(&options)
+                    }
+                };
 
-            if self.should_ignore(ignore) {
-                continue;
+            if matches!(child, EntryTree::Leaf { .. }) {
+                let ignore = options
+                    .and_then(|options| options.ignore)
+                    .unwrap_or_default();
+
+                if self.should_ignore(ignore) {
+                    continue;
+                }
             }
 
             full_path.clear();
@@ -223,7 +246,7 @@ impl Divan {
                     }
                 }
                 EntryTree::Parent { children, .. } => {
-                    self.run_tree_list(children, &full_path)
+                    self.run_tree_list(children, &full_path, options)
                 }
             }
         }
